@@ -43,8 +43,7 @@ def s1(ck, an):
     def on_stmt(s, fw):
         for c in ast.walk(s):
             if (isinstance(c, ast.Call) and isinstance(c.func, ast.Attribute) and c.func.attr == "append"
-                    and isinstance(c.func.value, ast.Subscript) and isinstance(c.func.value.value, ast.Attribute)
-                    and c.func.value.value.attr == "history" and len(c.args) == 1):
+                    and isinstance(c.func.value, ast.Subscript) and fw.canon(c.func.value.value) == "self.history" and len(c.args) == 1):      # `self.history[...]`, possibly through a local alias
                 k = c.func.value.slice
                 key = k.value if isinstance(k, ast.Constant) else fw.canon(k)
                 appends.setdefault(key, []).append((c, fw.canon(c.args[0])))
